@@ -194,8 +194,9 @@ class CopyIdentifiers(Scenario):
         from geoh5py.workspace import Workspace
         kind = int(cx.int("kind", 1, 3))
         other_ws, occupied = bool(cx.bool("other_ws")), bool(cx.bool("occupied"))
+        by_pg = bool(cx.bool("occupied_by_property_group"))
         with_data, with_group = bool(cx.bool("with_data")), bool(cx.bool("with_group"))
-        if occupied and not other_ws:
+        if (occupied and not other_ws) or (by_pg and not occupied):
             cx.assume(False)
         ws = Workspace()
         src = _make(ws, kind, U[0])
@@ -205,8 +206,12 @@ class CopyIdentifiers(Scenario):
             if with_group:
                 pg = src.find_or_create_property_group(name="pg", properties=[d.uid])
         target = Workspace() if other_ws else ws
-        if occupied:
+        if occupied and not by_pg:
             _make(target, kind, U[0])
+        elif occupied:
+            holder = _make(target, 1, U[2])
+            hd = holder.add_data({"hd": {"values": _np.zeros(2)}})
+            holder.find_or_create_property_group(name="holder", properties=[hd.uid], uid=U[0])
         cp = src.copy(parent=target)
         cd = [c for c in cp.children if getattr(c, "name", None) == "d"]
         cpg = list(cp.property_groups or [])
@@ -224,9 +229,37 @@ class CopyIdentifiers(Scenario):
         else:
             cx.prove(ids_cp == ids_src, "copy into another workspace: identifiers kept when free", "copy identifiers")
         for w in {id(ws): ws, id(target): target}.values():
-            allids = [e.uid for e in w.groups + w.objects + w.data]
+            allids = [e.uid for e in w.groups + w.objects + w.data + w.property_groups]
             cx.prove(len(allids) == len(set(allids)), "no identifier occurs twice in a workspace after the copy", "uniqueness")
         cx.prove(src.uid == U[0] and (d is None or src.children.count(d) == 1), "source unchanged", "copy structure")
+        return "ok"
+
+
+class CopyAfterRemoval(Scenario):
+    """copy into another workspace, remove that copy (and drop every reference), copy again: identifiers are free again"""
+    pid = "C06"
+
+    def body(self, cx):
+        import gc
+        from geoh5py.workspace import Workspace
+        kind = int(cx.int("kind", 1, 3))
+        with_group = bool(cx.bool("with_group"))
+        ws, other = Workspace(), Workspace()
+        src = _make(ws, kind, U[0])
+        d = src.add_data({"d": {"values": _np.zeros(2)}})
+        pg = src.find_or_create_property_group(name="pg", properties=[d.uid]) if with_group else None
+        first = src.copy(parent=other)
+        other.remove_entity(first)
+        del first
+        gc.collect()
+        cp = src.copy(parent=other)
+        cd = [c for c in cp.children if getattr(c, "name", None) == "d"]
+        cpg = list(cp.property_groups or [])
+        cx.prove(cp.uid == src.uid and len(cd) == 1 and cd[0].uid == d.uid,
+                 "identifiers of the entity and its child are kept again once the first copy is gone", "copy identifiers")
+        if pg is not None:
+            cx.prove(len(cpg) == 1 and cpg[0].uid == pg.uid,
+                     "the property group keeps its identifier again once the first copy is gone", "copy identifiers")
         return "ok"
 
 
@@ -246,7 +279,7 @@ class OneTypePerClass(Scenario):
 
 def main(tier, seed):
     rc1 = run_property(
-        "C06", [ReuseIdentifier(), CopyIdentifiers(), OneTypePerClass()], tier, seed,
+        "C06", [ReuseIdentifier(), CopyIdentifiers(), CopyAfterRemoval(), OneTypePerClass()], tier, seed,
         assumptions=["workspace level: the real in-memory Workspace (real h5py, real numpy) is driven by the symx explorer; only "
                      "entity kinds and flags are symbolic, every feasible combination is one path",
                      "garbage collection is not a variable: entities stay referenced by the harness"],
@@ -254,8 +287,9 @@ def main(tier, seed):
                  "remove / re-create histories and GC timing", "data and property-group identifier collisions"],
         bounds="entity kinds {ContainerGroup, Points, Curve} x same/free identifier; copy flags (same/other workspace, occupied, "
                "with data, with property group)",
-        expected_outcomes={"ReuseIdentifier": {"refused"}, "CopyIdentifiers": {"ok"}, "OneTypePerClass": {"ok"}},
-        jobs=3,
+        expected_outcomes={"ReuseIdentifier": {"refused"}, "CopyIdentifiers": {"ok"}, "CopyAfterRemoval": {"ok"},
+                           "OneTypePerClass": {"ok"}},
+        jobs=4,
     )
     rc2 = run_xh(
         "C06", PRELUDE, CONDS, tier, seed,
